@@ -1,0 +1,26 @@
+//! `form_urlencoded::parse` decodes names and values *lossily*: bytes that are not valid UTF-8
+//! after percent-decoding are silently replaced with U+FFFD.
+//! The extractors built on top of it must reject such input instead of handing a different
+//! value to the application, so they validate the raw payload first.
+use std::borrow::Cow;
+
+/// Return the first raw (still percent-encoded) name or value of an
+/// `application/x-www-form-urlencoded` payload that is not a well-formed UTF-8 string
+/// once percent-decoded.
+pub(crate) fn find_invalid_utf8(input: &[u8]) -> Option<String> {
+    for pair in input.split(|b| *b == b'&') {
+        for part in pair.splitn(2, |b| *b == b'=') {
+            // `+` stands for a space: it can't affect UTF-8 validity.
+            let decoded: Cow<'_, [u8]> = percent_encoding::percent_decode(part).into();
+            if std::str::from_utf8(&decoded).is_err() {
+                return Some(String::from_utf8_lossy(part).into_owned());
+            }
+        }
+    }
+    None
+}
+
+/// The error message used by both extractors.
+pub(crate) fn invalid_utf8_message(raw: &str) -> String {
+    format!("`{raw}` is not a well-formed UTF8 string when percent-decoded")
+}
